@@ -59,6 +59,13 @@ MUT = [
      [(TB, '            if y > end:\n                return\n            row.y = y\n            yield row', '            if y > end:\n                return\n            row.y = y - start\n            yield row')]),
     ('c08_get_column_no_x', 'C08', True, 'get_column without `column.x = x`',
      [(TB, '        if column is None:\n            raise ValueError\n        column.x = x\n        return column', '        if column is None:\n            raise ValueError\n        return column')]),
+    ('c08_filter_style_ignored_in_row', 'C08', True, 'Row.get_cells(style=): the style test is skipped (filtered getters)',
+     [(RW, '            # Filter the cells with the style\n            if style and style != cell.style:\n                continue\n            cells.append(cell)', '            cells.append(cell)')]),
+    ('c08_column_cells_filtered_keep_repeat', 'C08', True, 'get_column_cells with a filter: the cell keeps its column repeat (only the filtered branch)',
+     [(TB, '            if cell is None:\n                raise ValueError\n            if cell.repeated is not None:\n                cell.repeated = None\n', '            if cell is None:\n                raise ValueError\n')]),
+    ('c08_get_rows_filter_drops_next', 'C08', True, 'get_rows(style=/content=): a rejected row also hides the row after it',
+     [(TB, '        rows = []\n        for row in self.traverse(start=y, end=t):\n            if content and not row.match(content):\n                continue',
+       '        rows = []\n        walker = self.traverse(start=y, end=t)\n        for row in walker:\n            if content and not row.match(content):\n                next(walker, None)\n                continue')]),
     ('seeded_C08-3', 'C08', True, 'independent: _yield_odf_rows duplicates the copy it has just yielded (visible only under lazy consumption of traverse())', 'seeded/C08-3/patch.diff'),
     ('c08_row_traverse_copies_previous', 'C08', True, 'Row.traverse(): every further cell of a run is a copy of the copy yielded before (the F112 repair removed, unbounded branch only)',
      [(RW, '                    if cell is None:\n                        cell_copy = Cell()\n                    else:\n                        cell_copy = cell.clone\n                        if repeated > 1:\n                            cell_copy.repeated = None\n                    cell_copy.y = self.y\n                    cell_copy.x = x\n                    x += 1\n                    yield cell_copy',
